@@ -1,7 +1,7 @@
 #!/venv/bin/python
 """Verify a seeded change delivered by a sub-agent and record it under /verif/seeded/.
 
-usage: seed_verify.py <PROP> <k> [--keep] [--no-tests]
+usage: seed_verify.py <PROP> <k> [--keep] [--no-tests] [--wave2|--wave3|--wave5]
   /tmp/seed/out-<PROP>/change<k>/{patch.diff,demo.py,notes.md}, worktree /tmp/seed/wt-<PROP>
 Steps: demo on the clean worktree (must exit 0), apply the patch, demo again (must exit != 0), baseline
 suite (448 stable tests must pass), every implemented check against the patched worktree, revert."""
@@ -29,10 +29,15 @@ def main():
     prop, k = sys.argv[1].upper(), sys.argv[2]
     keep = "--keep" in sys.argv
     notests = "--no-tests" in sys.argv
-    wave = 3 if "--wave3" in sys.argv else (2 if "--wave2" in sys.argv else 1)
-    wt = "/tmp/seed/%s-%s" % ({1: "wt", 2: "w2", 3: "w3"}[wave], prop)
-    out = "/tmp/seed/%s-%s/change%s" % ({1: "out", 2: "out2", 3: "out3"}[wave], prop, k)
-    sid = "%s-%d" % (prop, int(k) + 3 * (wave - 1))
+    wave = 5 if "--wave5" in sys.argv else (3 if "--wave3" in sys.argv else (2 if "--wave2" in sys.argv else 1))
+    wt = "/tmp/seed/%s-%s" % ({1: "wt", 2: "w2", 3: "w3", 5: "w5"}[wave], prop)
+    if wave == 5:
+        # fifth round: out5-<P>/fault<k> (faults) next to out5-<P>/benign<k> (handled by tools/benign_collect.py); ids continue after round 3
+        out = "/tmp/seed/out5-%s/fault%s" % (prop, k)
+        sid = "%s-%d" % (prop, int(k) + 9)
+    else:
+        out = "/tmp/seed/%s-%s/change%s" % ({1: "out", 2: "out2", 3: "out3"}[wave], prop, k)
+        sid = "%s-%d" % (prop, int(k) + 3 * (wave - 1))
     patch = os.path.join(out, "patch.diff")
     demo = os.path.join(out, "demo.py")
     res = dict(property=prop, change=k)
